@@ -25,7 +25,10 @@ RULE = ("structured random cases: 2-6 forecast thresholds on the half-integer gr
         "threshold dimension at a random position, ordinates k/8 (mostly non-decreasing, sometimes shuffled, NaN injected), observations on / between / "
         "outside the forecast thresholds (or NaN), weight absent / 0-1 step / general k/4 on its own thresholds and dims, additional thresholds, "
         "4 fcst fills x 4 weight fills x 2 integration methods x propagate_nans x include_components, plus a malformed stream (non-increasing "
-        "coordinates, ordinates or weights outside [0,1], negative weights, unknown method names, a single threshold); a case is distinct by the hash "
+        "coordinates, ordinates or weights outside [0,1], negative weights, unknown method names, a single threshold); 30 % of the calls are moved to "
+        "base + scale * x (thresholds far from zero relative to their spacing: 1e6 at 1, 101325 at 1/16, 273 at 1/64, -2e6 at 2; a 2^-10 grid), "
+        "observations up to 2^20 outside the thresholds, 12 % of the calls have a NaN in EVERY forecast CDF (single-case calls included), 10 % use "
+        "integer threshold coordinates; deterministic probes for each of these classes; a case is distinct by the hash "
         "of all inputs and options and non-trivial when at least one forecast case has a finite score")
 ASSUMPTIONS = ["thresholds (forecast, weight, additional) are finite; observations are finite or NaN -- an infinite observation is outside the model and is "
                "only checked through the relation 'scored as a missing observation' (known finding crps-cdf-infinite-observation)",
@@ -178,8 +181,8 @@ def gen_case(ctx, malformed=False):
     if int_mode:
         ctx.count("class:int_thresholds")
         ov = np.asarray(obs.values, dtype=float)
-        if not np.isnan(ov).any() and (ov == np.round(ov)).all():
-            obs = obs.astype(np.int64)
+        if not np.isnan(ov).any() and (ov == np.round(ov)).all():      # whole-number observations in integer storage (unsigned when none is negative)
+            obs = obs.astype(rng.choice([np.int64, np.int32] + ([np.uint8, np.uint16] if (ov >= 0).all() and (ov < 256).all() else [])))
             ctx.count("class:int_observations")
     ncases = int(np.prod([sizes[d] for d in sizes])) if sizes else 1
     if not sizes:
